@@ -51,7 +51,9 @@ def handle (j : Json) : Except String Json := do
     let S ← listOf parseRat (← field j "S")
     let tiny ← parseRat (← field j "tiny")
     let o ← parseOpts (← field j "opts")
-    match truncateChecked tiny o S with
+    -- `trunc_cut_check`: the un-nudged threshold, used for the `trunc_cut >= 1` test of a nudged variant
+    let chk ← optField (← field j "opts") "trunc_cut_check" parseRat o.truncCut
+    match (truncateChecked tiny { o with truncCut := chk } S).map (fun _ => truncate tiny o S) with
     | .error e => return obj [("raise", Json.str e)]
     | .ok r =>
       return obj ([("cut", (r.cut : Json)), ("nkept", (r.kept.length : Json)),
